@@ -161,11 +161,17 @@ class InterfaceLDM3:
         self.logging.debug(
             "Adding provider data to LDM from application_id: %d", data_provider.application_id)
 
-        if data_provider.application_id in self.ldm_service.get_data_provider_its_aid():
-            data_object_id = self.ldm_service.add_provider_data(
-                data_provider)  # Add data to LDM
-            if data_object_id is not None:
-                return AddDataProviderResp(application_id=data_provider.application_id, data_object_id=data_object_id)
+        # The registration is checked and the data object stored in one critical section of the service
+        # state: a deregistration of the provider either precedes the request, which is then refused, or
+        # follows the insertion; no data object of a deregistered provider appears later.
+        with self.ldm_service.state_lock:
+            if data_provider.application_id in self.ldm_service.get_data_provider_its_aid():
+                data_object_id = self.ldm_service.add_provider_data(
+                    data_provider)  # Add data to LDM
+                if data_object_id is not None:
+                    return AddDataProviderResp(
+                        application_id=data_provider.application_id, data_object_id=data_object_id
+                    )
         return AddDataProviderResp(application_id=data_provider.application_id, data_object_id=-1)
 
     def update_provider_data(self, data_provider: UpdateDataProviderReq) -> UpdateDataProviderResp:
